@@ -142,21 +142,38 @@ package rle
 //@ loop (*RLE).Read#1
 //@   invariant freshOrNil(out) && rr != nil && freshsince(rr) && (rfault ==> old(rfault))
 
+// C04: a bit-packed run of any number of groups (the header is an unbounded varint; other
+// writers emit more than 63 groups per run) is decoded group by group without leaving
+// the bytes read for it: no index or slice expression of the decoder can fail.
+//@ pred wholeGroups(n, width) := (width == 1) || (width == 2 && n % 2 == 0) || (width == 3 && n % 3 == 0) || (width == 4 && n % 4 == 0)
 //@ func readRLEBitPacked
+//@   verify[C04]
 //@   requires dyn(r) == typeid("*bytes.Reader") && payload(r) != 0
+//@   requires[C04] width <= 4
+//@   free-requires header < 1099511627776
+//@   safety[C04] slice-bounds index makeslice-len
 //@   modifies obj(r), rfault
 //@   ensures freshOrNil(res0)
+//@   ensures[C04] err == nil && width >= 1 ==> #res0 == (header / 2) * 8
 //@   ensures[C10] err == nil ==> (rfault ==> old(rfault))
 //@ loop readRLEBitPacked#1
 //@   invariant freshOrNil(out) && freshsince(rawBytes) && (rfault ==> old(rfault))
+//@   invariant[C04] 1 <= width && width <= 4 && wholeGroups(#rawBytes, width)
+//@   invariant[C04] #out * width + 8 * #rawBytes == 8 * width * (header / 2)
 
+// an RLE run of any length >= 0 yields that many copies, written inside the slice made for them
 //@ func readRLE
+//@   verify[C04]
 //@   requires dyn(r) == typeid("*bytes.Reader") && payload(r) != 0
+//@   free-requires header < 1099511627776
+//@   safety[C04] slice-bounds index makeslice-len
 //@   modifies obj(r), rfault
 //@   ensures freshOrNil(res0)
+//@   ensures[C04] err == nil ==> #res0 == header / 2
 //@   ensures[C10] err == nil ==> (rfault ==> old(rfault))
 //@ loop readRLE#1
 //@   invariant freshsince(out) && (rfault ==> old(rfault))
+//@   invariant[C04] 0 <= i && #out == count && count == header / 2
 
 //@ func readIntLittleEndianPaddedOnBitWidth
 //@   requires dyn(in) == typeid("*bytes.Reader") && payload(in) != 0
